@@ -24,5 +24,13 @@ CLAIMED = {
          "note": TB + "receiving side (sh quoting, perl q{}, y///, unpack, perl -d/PERL5DB evaluation order) is modelled, validated by runs of real perl/dash/bash; "
                  "known findings: empty script, raw CR LF inside a literal.",
          "technique": "Coq proof (lexer/decoder composition lemmas over the uu round-trip theorem) + differential correspondence judged by vm_compute + perl/sh differential test"},
+ "C17": {"text": "Coq model of Converter.From (glob per sorted pattern, sort, compact, dot/stat/regular tests, first-matching filter, newline "
+                 "insertion, single file, several sources, list function) parameterised by path.Match verdicts; theorems for every table/listing: "
+                 "first-matching-filter, single unmatched file unchanged, sources concatenated in order, dot-names/directories/specials inert, parts "
+                 "newline-terminated. PARTIAL: the full statement from_dir = spec_dir (exactly the eligible files in name order) is stated in Coq "
+                 "and evaluated by the judge on every harness case (500 real temp trees per quick run incl. dangling links, fifos, overlapping and "
+                 "malformed patterns) but its general proof is not finished.",
+         "note": TB + "path.Match/fs.Glob/Stat are environment (their verdicts are case inputs); model tied by byte-exact correspondence on real trees.",
+         "technique": "Coq proof over a hand model (partial) + differential correspondence and statement-level monitor judged by vm_compute"},
 }
 NOT_CLAIMED = {}
